@@ -716,7 +716,8 @@ class Builder:
         try:
             yield
         finally:
-            assert self._scope_stack.pop() == name
+            scope = self._scope_stack.pop()
+            assert scope == name
 
     @contextmanager
     def Index(self, index):
@@ -738,7 +739,8 @@ class Builder:
         try:
             yield
         finally:
-            assert self._scope_stack.pop() == index
+            scope = self._scope_stack.pop()
+            assert scope == index
 
     def as_memory_map(self):
         self.freeze()
